@@ -106,8 +106,13 @@ fn raw(o: &Value, first: bool, v: &Vals) -> f32 {
         (_, _) => v.d2.0 as f32,
     }
 }
+/// equal as f32 values (the two zeros are equal, NaN matches NaN) ...
 fn same(a: f32, b: f32) -> bool {
-    a.to_bits() == b.to_bits() || (a.is_nan() && b.is_nan())
+    a == b || (a.is_nan() && b.is_nan())
+}
+/// ... and still equal after a sign-sensitive continuation of the program (1 / x tells the two zeros apart as +inf / -inf)
+fn same_through_division(a: f32, b: f32) -> bool {
+    same(a, b) && same(1.0 / a, 1.0 / b)
 }
 
 fn grid_case(rec: &Value, rng: &mut Rng) -> Option<(String, Value, Value)> {
@@ -116,8 +121,9 @@ fn grid_case(rec: &Value, rng: &mut Rng) -> Option<(String, Value, Value)> {
     let form = s(cs, "form");
     let assign = cs["assign"].as_bool().unwrap();
     let (l, r) = (&cs["l"], &cs["r"]);
-    for round in 0..3 {
-        let v1 = rng.float(-12, 12);
+    for round in 0..5 {
+        // rounds 3 and 4: the two zeros (the sign of zero must come out as with the plain f32 operator)
+        let v1 = match round { 3 => 0.0, 4 => -0.0, _ => rng.float(-12, 12) };
         let v = Vals {
             v1,
             v2: if form == "eq" && round == 0 { v1 } else { rng.float(-12, 12) },
@@ -150,8 +156,9 @@ fn grid_case(rec: &Value, rng: &mut Rng) -> Option<(String, Value, Value)> {
                     "neg" => -lv,
                     _ => lv.abs(),
                 };
-                if !same(q.value, ev) {
-                    return Some(("numeric part of the result".into(), json!({"value": ev, "bits": ev.to_bits()}), json!({"value": q.value, "bits": q.value.to_bits(), "inputs": inputs})));
+                if !same_through_division(q.value, ev) {
+                    return Some(("numeric part of the result (as an f32 value, and as the divisor of a later division: 1/x)".into(),
+                                 json!({"value": ev, "bits": ev.to_bits(), "one_over": 1.0 / ev}), json!({"value": q.value, "bits": q.value.to_bits(), "one_over": 1.0 / q.value, "inputs": inputs})));
                 }
             }
             Res::U(u) => {
